@@ -368,9 +368,18 @@ class StmtMixin:
                     a = self.clamp(n, lo, z3.IntVal(0))
                     b = self.clamp(n, hi, n)
                     b = z3.If(b < a, a, b)
-                    arr = z3.Lambda([i], z3.If(i < a, z3.Select(list_arr(base), i),
-                                               z3.Select(list_arr(base), i + (b - a))))
-                    newl = mk_list(base.t, n - (b - a), arr)
+                    if self.concat_axioms:
+                        newl = self.fresh_val(s2, base.t, 'del')
+                        s2.assume(list_len(newl) == n - (b - a))
+                        s2.assume(z3.ForAll([i], z3.Implies(z3.And(0 <= i, i < a),
+                                                           z3.Select(list_arr(newl), i) == z3.Select(list_arr(base), i))))
+                        j = z3.Int(fresh_name('dj'))
+                        s2.assume(z3.ForAll([j], z3.Implies(z3.And(a <= j, j < n - (b - a)),
+                                                           z3.Select(list_arr(newl), j) == z3.Select(list_arr(base), j + (b - a)))))
+                    else:
+                        arr = z3.Lambda([i], z3.If(i < a, z3.Select(list_arr(base), i),
+                                                   z3.Select(list_arr(base), i + (b - a))))
+                        newl = mk_list(base.t, n - (b - a), arr)
                     for s3 in self.assign(t.value, newl, s2, line):
                         yield s3, NORMAL
             else:
